@@ -101,7 +101,8 @@ def run_source_check(pid, tier, t0, items, rule, extra_cov, level="translation_v
             bad = [v for v in bad if violation_filter(v)]
         for v in sorted(bad):
             clause = v.split(":")[-1] if v.startswith(("MON_", "FAULT_")) else v
-            if rep.violation([it["name"], it["name"] + "@" + it["tag"]] + ["shape:" + x for x in it.get("shapes", [])], clause,
+            if rep.violation([it["name"], it["name"] + "@" + it["tag"]] + ["shape:" + x for x in it.get("shapes", [])]
+                             + ["shape:%s@%s" % (x, it["tag"]) for x in it.get("shapes", [])], clause,
                              {"property": pid, "case": it["name"], "variant": it["tag"], "verdict": v, "source": it["src"],
                               "emitted": it["b_text"], "tlc_case": it["case"]},
                              "case=%s variant=%s verdict=%s" % (it["name"], it["tag"], v)):
@@ -135,14 +136,27 @@ def check_c01(tier, t0):
         progs = [(n, s) for n, s in progs if _re.search(os.environ["VERIF_ONLY"], n)]
     vecs = c01_vectors(tier)
     items, outside, nerr = source_items(progs, vecs)
+    # programs drawn from the grammar ProgGen.tla (TLC -simulate, seeded; thorough: also every program of a small configuration)
+    import proggen
+    gen, gr = proggen.generate("C01_gen", 300 if tier == "thorough" else 36, seed(), max_lines=8, max_depth=2, nfuncs=1)
+    gprogs = [(n, s) for n, s, _ in gen]
+    if tier == "thorough":
+        ex, er = proggen.generate("C01_genx", 0, seed(), max_lines=2, max_depth=1, nfuncs=0, exhaustive=True, alphabet=proggen.SMALL)
+        gprogs += [(n.replace("pg_", "pgx_"), s) for n, s, _ in ex]
+    if not os.environ.get("VERIF_ONLY") or _re.search(os.environ["VERIF_ONLY"], "pg_"):
+        gitems, goutside, gerr = source_items(gprogs, vecs[:2] if tier == "quick" else vecs[:4], maxn=3)
+        items += gitems
+        outside.update(goutside)
+        nerr += gerr
     if len(items) < 40 and not os.environ.get("VERIF_ONLY"):
         raise MachineryError("only %d cases inside the dialect" % len(items))
     rule = ("program families (branches, loops, functions, register pressure, access forms), terminating programs, witnesses of listed "
             "defects and those of the repository's own programs that lib/pysrc.py accepts, each compiled under %d option vectors; "
             "case = PySrc.tla machine of the source x IC10 machine of the emitted text over all device inputs in the domain; "
             "distinct = distinct emitted texts" % len(vecs))
-    return run_source_check("C01", tier, t0, items, rule,
-                            {"outside_dialect": outside, "compile_errors_skipped": nerr, "option_vectors": [cw.vec_name(v) for v in vecs]})
+    return run_source_check("C01", tier, t0, items, rule + "; plus programs generated by ProgGen.tla (grammar as a state machine: %d drawn by TLC -simulate%s)" %
+                            (len(gen), ", all programs of the small exhaustive configuration" if tier == "thorough" else ""),
+                            {"generated_programs": len(gprogs), "outside_dialect": outside, "compile_errors_skipped": nerr, "option_vectors": [cw.vec_name(v) for v in vecs]})
 
 
 CHECKS = {"C01": check_c01}
